@@ -132,6 +132,8 @@ class E1(Base):
     TABULATED = 0.35
     #: share of online-class runs finalised late by injected finalize calls
     LATE_FIN = 0.0
+    #: share of runs with injected finalize() calls that must be rejected
+    BAD_FIN = 0.0
     OBS_KINDS = None
     #: share of runs that construct (and finalise) with numpy integers and/or
     #: keyword arguments
@@ -220,6 +222,11 @@ class E1(Base):
                 and rng.random() < self.LATE_FIN:
             style = "manual" + ("+for" if style.endswith("+for") else "")
             faults = dict(faults, fin=0.35)
+        if self.BAD_FIN and not faults.get("fin") and \
+                rng.random() < self.BAD_FIN:
+            # finalize() calls that must be rejected and, being rejected,
+            # change nothing
+            faults = dict(faults, badfin=rng.choice((0.05, 0.15)))
         return Plan([(cfg, passes, style)], faults=faults,
                     overrun=self.OVERRUN, knobs=[("planner", planner)],
                     obs_kinds=self.OBS_KINDS,
